@@ -470,7 +470,8 @@ def run_entry_points(b, tier, seed, props):
     """String / file / list-of-files assertions on generated texts (readers, newlines, unicode)."""
     from tdda.referencetest.referencetest import ReferenceTest
     texts = ['', 'a', 'a\n', 'a\nb', 'a\nb\n', 'a\r\nb\r\n', 'é£\n', ' a \n\tb\n', 'x\n\n', 'id=7 ok\nskip me\n',
-             'id=7 ok\n', 'skip this\nid=8 ok\n']      # the same text up to a removable line / an excusable number
+             'id=7 ok\n', 'skip this\nid=8 ok\n',      # the same text up to a removable line / an excusable number
+             'a\x0cb\n', 'p\u2028q\x85r\x1ds\n']      # line boundaries other than \n: both sides must be split alike
     saved = dict(ReferenceTest.regenerate)
     top = tempfile.mkdtemp(prefix='verif-c04e-')
     cwd = os.getcwd()
@@ -600,12 +601,108 @@ def run_entry_points(b, tier, seed, props):
                         else:
                             okl = ('actual length %d, expected length %d' % (len(ab), len(eb))) in m.group(2)
                         b.check('C15.binary.lengths-exact', okl, w, m.group(2))
+        if 'C15' in props:
+            run_file_pairs(b, rt, Failed, refdir, tmpdir, actdir, top)
     finally:
         os.chdir(cwd)
         ReferenceTest.regenerate.clear()
         ReferenceTest.regenerate.update(saved)
         ReferenceTest.set_defaults(verbose=True)
         shutil.rmtree(top, ignore_errors=True)
+
+
+POST = re.compile(r'Compare post-processed with:\n\s+\S+ (\S+) (\S+)')
+RAW = re.compile(r'Compare (?:raw )?with:\n\s+\S+ (\S+) (\S+)')
+
+
+def run_file_pairs(b, rt, Failed, refdir, tmpdir, actdir, top):
+    """
+    Failing file comparisons with an exclusion in force: (a) several differently named actual files against
+    references of the same name, in one assertion and in successive ones -- every comparison's post-processed
+    pair must differ on that comparison's unexcused lines; (b) actual files that themselves live in tmp_dir under
+    the names the library uses for its own artefacts -- the file named as 'actual' must keep the actual content.
+    Numbers have equal widths throughout (the unequal-width case is the recorded C04 finding).
+    """
+    ref_text = 'id=1 same\nL2\nL3\nL4\n'
+    acts = {'x.txt': ('id=2 same\nL2x\nL3\nL4\n', 1), 'y.txt': ('id=3 same\nL2y\nL3y\nL4\n', 2),
+            'z.txt': ('id=4 same\nL2\nL3z\nL4z\n', 2), 'r.txt': ('id=5 same\nL2r\nL3r\nL4r\n', 3)}
+    opts = {'ignore_patterns': [r'\d+']}
+
+    def ndiff(pa, pe):
+        with open(pa, encoding='utf-8') as f:
+            la = f.read().split('\n')
+        with open(pe, encoding='utf-8') as f:
+            le = f.read().split('\n')
+        return sum(1 for x, y in zip(la[-5:], le[-5:]) if x != y) + abs(len(la) - len(le))
+
+    def judge(w, msg, names, where):
+        posts, raws = POST.findall(msg), RAW.findall(msg)
+        b.check('C15.post-processed-pair-written', len(posts) == len(names), w, msg[:400])
+        if len(posts) != len(names):
+            return
+        b.check('C15.post-processed-pairs-are-distinct-files',
+                len({p for pair in posts for p in pair}) == 2 * len(posts), w, repr(posts))
+        for (pa, pe), nm in zip(posts, names):
+            if os.path.exists(pa) and os.path.exists(pe):
+                want = acts[nm][1]
+                got = ndiff(pa, pe)
+                b.check('C15.post-processed-pair-differs-exactly-on-unexcused-lines', got == want,
+                        dict(w, comparison=nm), 'the pair named for %s differs on %d lines; that comparison has '
+                        '%d unexcused differences' % (nm, got, want))
+            else:
+                b.check('C15.named-files-exist', False, dict(w, comparison=nm), '%s %s' % (pa, pe))
+        for (ra, re_), nm in zip(raws, names):
+            if os.path.exists(ra):
+                with open(ra, encoding='utf-8', newline='') as f:
+                    got = f.read()
+                b.check('C15.raw-actual-holds-the-actual-content', got == acts[nm][0], dict(w, comparison=nm),
+                        'file given as actual (%s) holds %r, actual content %r' % (ra, got, acts[nm][0]))
+            else:
+                b.check('C15.named-files-exist', False, dict(w, comparison=nm), ra)
+
+    def attempt(w, fn):
+        try:
+            with quiet():
+                fn()
+        except Failed as e:
+            return str(e)
+        except Exception as e:
+            b.check('C15.entry.noraise', False, w, '%s: %s' % (type(e).__name__, e))
+            return None
+        b.check('C15.failing-comparison-fails', False, w, 'passed')
+        return None
+
+    for where in ('actdir', 'tmpdir-own-names'):
+        for grouping in ('one-assertion', 'successive'):
+            for names in (['x.txt', 'y.txt'], ['y.txt', 'x.txt', 'z.txt'], ['r.txt', 'z.txt'], ['z.txt']):
+                for f in os.listdir(tmpdir):
+                    os.unlink(os.path.join(tmpdir, f))
+                with open(os.path.join(refdir, 'r.txt'), 'w', encoding='utf-8', newline='') as f:
+                    f.write(ref_text)
+                paths = []
+                for nm in names:
+                    # 'tmpdir-own-names': the outputs are produced in tmp_dir, named like the library's artefacts
+                    pth = os.path.join(actdir, nm) if where == 'actdir' else \
+                        os.path.join(tmpdir, ('actual-r.txt' if nm == names[0] else 'actual-' + nm))
+                    with open(pth, 'w', encoding='utf-8', newline='') as f:
+                        f.write(acts[nm][0])
+                    paths.append(pth)
+                w = {'case': 'file pairs', 'where': where, 'grouping': grouping, 'actual files': paths,
+                     'reference': 'r.txt for each', 'options': desc_opts(opts)}
+                b.case(('file-pairs', where, grouping, tuple(names)))
+                if grouping == 'one-assertion':
+                    msg = attempt(w, lambda: rt.assertTextFilesCorrect(paths, ['r.txt'] * len(paths), **opts))
+                    if msg is not None:
+                        judge(w, msg, names, where)
+                else:
+                    msgs = []
+                    for pth in paths:
+                        m1 = attempt(w, lambda: rt.assertTextFileCorrect(pth, 'r.txt', **opts))
+                        if m1 is None:
+                            break
+                        msgs.append(m1)
+                    else:
+                        judge(w, '\n'.join(msgs), names, where)
 
 
 def run(props, tier, seed):
